@@ -174,6 +174,11 @@ def main(chk):
     for r in recs:
         check_run(chk, r)
     collectors(chk, rng, 6 if q else 100)
+    import tabruns
+    for r in lc.tab_collect(chk, rng, 2 if q else 20):
+        bad = None if r["res"]["raised"] else tabruns.check_kept(r["res"])
+        if bad:
+            chk.fail(f"C01:train_{r['name']}:kept-transition", "tabular routine: " + bad[0], {"case": r["case"], **bad[1]})
     r0 = recs[0]
     chk.sample({"case": lc.case_of(r0), "kept_head": [[lc.obs_tag(a["observation"]), lc.obs_tag(a["next_observation"])] for a in r0["adds"][:4]],
                 "model_stored_head": r0["model"]["stored"][:4]})
@@ -182,6 +187,7 @@ def main(chk):
              "(random episode scripts of lengths 1-5 with terminated / truncated ends, budgets 0-14, start counts incl. >= budget, episode limits, "
              "warm-up 0 / 4 / 6 / > budget); every add_sample call is recorded and compared with the environment's call log and with the "
              "extracted loop-skeleton model; greedy-policy inputs recorded for the DQN family; sample_trajectories and the A2C / PPO "
-             "vector-environment collectors compared with their environments' logs",
-        assumptions=["networks, updates and action choice are oracles of the skeleton", "tabular routines: the update arguments are compared with the "
-                     "environment log in the C14 check (run-update-args)", "Gymnasium's vector autoreset is the environment's behaviour"])
+             "vector-environment collectors compared with their environments' logs; train_q_learning / sarsa / double_q_learning / monte_carlo / dynaq on "
+             "a scripted discrete environment with stochastic successors: every table-update argument tuple vs the environment's steps",
+        assumptions=["networks, updates and action choice are oracles of the skeleton", "tabular routines: the arguments of every table update (episode record for Monte-Carlo, counter "
+                     "update for Dyna-Q) are recorded and compared with the scripted discrete environment's log", "Gymnasium's vector autoreset is the environment's behaviour"])
